@@ -269,6 +269,15 @@ def run(tier, seed, replay=None):
             conns.append({"id": k + 1, "reqs": [{"op": "OPEN_FILE", "path": "/***DVD***/" + rn}, {"op": "READ_FILE", "limit": 4096, "off": 32768},
                                                 {"op": "OPEN_FILE", "path": "/***PS3***/" + rn}, {"op": "STAT_FILE", "path": "/" + rn}]})
         worlds.append({"name": "rootnames", "aw": False, "nodes": nodes, "views": views, "conns": conns, "probe": True})
+        # the served root itself as an image, and odd spellings of the virtual prefixes
+        nodes = [srv.dnode(["g"], t), srv.fnode(["g", "a.bin"], 100, cid="vr_a", mtime=t + 1), srv.fnode(["top.bin"], 5, cid="vr_top", mtime=t + 2)]
+        conns = []
+        for k, pth in enumerate(["/***DVD***/", "/***DVD***", "/***PS3***/", "/***PS3***", "/***DVD***/.", "/***DVD***//g", "/***DVD***/g/", "/***DVD***/g/.",
+                                 "/***DVD***/../g", "/***DVD***/g/..", "/***DVD***/***DVD***/g", "/***PS3***/***DVD***/g", "***DVD***/g", "/***dvd***/g"]):
+            conns.append({"id": k + 1, "reqs": [{"op": "OPEN_FILE", "path": pth}, {"op": "READ_FILE", "limit": 2048, "off": 32768}, {"op": "STAT_FILE", "path": pth},
+                                                {"op": "OPEN_DIR", "path": pth}, {"op": "READ_DIR"}, {"op": "GET_DIR_SIZE", "path": pth}]})
+        worlds.append({"name": "virtual-root", "aw": False, "nodes": nodes, "views": [{"vk": "dvd", "p": []}, {"vk": "dvd", "p": ["g"]}, {"vk": "ps3", "p": []}],
+                       "conns": conns, "probe": True})
         # hostile byte streams against a normal tree
         nstream = 300 if not full else 6000
         for i in range(0, nstream, 10):
